@@ -16,7 +16,7 @@ from .core import Result, quiet, digest_of
 from .oracle import diff, fingerprint, outcome_diff
 from .simcfg import gen_sim_cfg, simpler_sim_cfgs
 from .simpool import Sim, Installed, SimDeadlock
-from .workload import gen_band, gen_signal_spec, build_signal, gen_thresholds, \
+from .workload import thorough, gen_band, gen_signal_spec, build_signal, gen_thresholds, \
     gen_burst_kwargs, gen_find_extrema_kwargs
 
 ID = 'C15'
@@ -52,6 +52,8 @@ def _gen_dicts(wl, band):
     d = {}
     d['THC0'] = gen_thresholds(wl, 'cycles')
     d['THC1'] = dict(gen_thresholds(wl, 'cycles'), min_n_cycles=wl.choice((2, 3, 4)))
+    d['THC2'] = {'amp_consistency_threshold': 0.99, 'period_consistency_threshold': 0.99,
+                 'monotonicity_threshold': 0.99}        # nothing is a burst
     d['THA0'] = gen_thresholds(wl, 'amp')
     d['THA1'] = dict(gen_thresholds(wl, 'amp'), min_n_cycles=wl.choice((1, 2, 4, 5)))
     d['BK0'] = gen_burst_kwargs(wl, 'amp') or {}
@@ -124,6 +126,8 @@ def _gen_session(wl, plan, s, plots):
         return wl.choice(c) if c else None
 
     n_ops = wl.randint(3, 12)
+    if thorough() and wl.random() < 0.3:
+        n_ops = wl.randint(13, 20)
     natural = plan['faults']['natural']
     n_plots = 0
     while len(ops) < n_ops:
@@ -133,7 +137,7 @@ def _gen_session(wl, plan, s, plots):
             method = wl.choice(('cycles', 'amp', 'amp'))
             center = wl.choice(('peak', 'trough'))
             rs = wl.random() < 0.8
-            th = wl.choice((None, 'THC0', 'THC1')) if method == 'cycles' else wl.choice((None, 'THA0', 'THA1', 'THA1'))
+            th = wl.choice((None, 'THC0', 'THC1', 'THC2')) if method == 'cycles' else wl.choice((None, 'THA0', 'THA1', 'THA1'))
             bk = wl.choice((None, 'BK0', 'BK0', 'BK1')) if method == 'amp' else wl.choice((None, 'BK1'))
             fe = wl.choice((None, None, 'FE0', 'FE1'))
             op = {'fn': 'cf', 'sig': sig, 'center': center, 'method': method, 'th': th, 'bk': bk,
@@ -213,6 +217,7 @@ def _gen_session(wl, plan, s, plots):
                 ops.append({'fn': 'limit', 'table': t['name'], 'start': a,
                             'stop': round(a + wl.uniform(dur * 0.3, dur * 0.6), 2),
                             'reset': wl.random() < 0.6})
+                avail.append(dict(t, name=rname_prev(s, ops)))      # a limited table is a table again
         elif r < 0.92:
             t = pick(('features', 'shape'), samples=True)
             if t:
